@@ -32,6 +32,22 @@ CLAIMED = {
    text='Same machinery as C04. State invariants pulled - delivered <= buffer + 2 and started - delivered <= buffer in every state of every schedule (the consumer may pause anywhere); the tightened bounds are REFUTED by TLC (vacuity guard). On real event logs the bound is evaluated at every prefix, with workloads of 4..12 items above the buffer size.',
    note='As C04. With catch_filter_exception, examples dropped by the catch count as consumed once finished.',
    tech='TLA+ specs of the thread protocols, TLC invariant checking + controlled-scheduler trace validation'),
+ 'C14': dict(engine='pipeline', cat='model_checking', ref='DESIGN.md section 6 C14',
+   text='Staged fault family of Pipeline.tla: source . failing map (EVERY subset of failing positions x 5 exception classes incl. a subclass of FilterException and a BaseException) . middle stage . every catch form (catch(E) for single type / tuple / Exception / unrelated type, thread and pool prefetch with catch_filter_exception) or an eager operation that must propagate . consumer on top (items, map, batch). TLC checks the implementation-shaped model against the reference (which removes exactly the examples whose evaluation raises a caught class and surfaces any other failure at its position with its class) for all programs; they are executed on the real library (quick: seeded sample + everything the model flags; thorough: all) and TLC judges the recorded value AND key iteration.',
+   note='As C01. catch() over an input whose examples cannot be fetched individually (non-indexable) is outside the quantifier ("indexable upstream pipelines").',
+   tech='TLA+ state machine over fault-injected API programs, TLC BFS + trace validation of real observations'),
+ 'C15': dict(engine='shards', cat='model_checking', ref='DESIGN.md section 6 C15',
+   text='Shards.tla: TLC enumerates EVERY (n, k) with 0 <= n <= 40 (thorough 160) and -1 <= k <= n + 2, checks the partition properties on the model of np.array_split; the real split / shard is run for every pair and every shard index on list- and dict-backed datasets and TLC judges the recorded shards: concatenation reproduces the dataset (disjoint, cover, order), sizes differ by at most one, shard(k, i) = split(k)[i] incl. keys, invalid counts rejected. Exhaustive inside N.',
+   note='Trusted: TLC. Bounded by N.',
+   tech='TLA+ model of array_split, TLC exhaustive enumeration + trace validation of the real shards'),
+ 'C17': dict(engine='bucket', cat='model_checking', ref='DESIGN.md section 6 C17',
+   text='Bucket.tla transcribes DynamicBucketDataset.__iter__ as a state machine (first-fit maybe_append, completion, one-bucket-per-step expiry, overflow loop, final flush; exact rational padding bounds). TLC enumerates all length sequences over a small alphabet x all parameter settings with the design invariants in every state, every enumerated behaviour is executed on the real code with fractions.Fraction rates and compared, and real observations (incl. seeded random longer sequences and float rates) are validated by TLC against the clauses Conservation / NonEmpty / AtMostBatchSize / PaddingBound / TotalSizeBound / ExpiryBound / BufferedBound / DropExact.',
+   note='Trusted: TLC. Discard instants with drop_incomplete=True are not observable from outside (earliest possible discard assumed; the exact versions are model invariants). Float rates are judged with 1e-4 slack.',
+   tech='TLA+ state machine of the bucketing loop, TLC BFS + replay + trace validation'),
+ 'C18': dict(engine='pipeline', cat='model_checking', ref='DESIGN.md section 6 C18',
+   text='Family sortgroup of Pipeline.tla: dict payloads (incomparable: comparing two examples raises TypeError in the real code), ties, empty and singleton datasets; every sort (keyless / id / neg / mod2 / const x reverse) and groupby (mod2 / const / id x group id) on top of every depth<=1 (thorough 2) pipeline plus random deeper ones. TLC judges the recorded real observation: permutation of the input, sort keys monotone (reverse included), example keys in order for keyless sort, keys attached to their examples, a group = the examples with its id in original order.',
+   note='As C01. The content of the input is taken from the reference of the input program (tied to the code by C01).',
+   tech='TLA+ state machine over API programs, TLC BFS + trace validation of real observations'),
 }
 
 PENDING_REASON = 'check not built yet in this round (specification planned in DESIGN.md section 6); will be claimed when its check exists'
@@ -71,8 +87,12 @@ def main():
         },
         'engines': [
             {'name': 'pipeline', 'path': '/verif/specs/Pipeline.tla',
-             'serves_properties': ['C01', 'C02', 'C03'],
+             'serves_properties': ['C01', 'C02', 'C03', 'C14', 'C18'],
              'kind_free_text': 'TLA+ specs Values/Ref/Impl/Obs/Pipeline/PipelineTrace checked with TLC; harness/{build,observe,pipeline}.py bind them to the code in both directions'},
+            {'name': 'shards', 'path': '/verif/specs/Shards.tla', 'serves_properties': ['C15'],
+             'kind_free_text': 'Shards.tla / ShardsTrace.tla + harness/check_shards.py'},
+            {'name': 'bucket', 'path': '/verif/specs/Bucket.tla', 'serves_properties': ['C17'],
+             'kind_free_text': 'Bucket.tla / BucketTrace.tla + harness/check_bucket.py'},
             {'name': 'conc', 'path': '/verif/specs/SingleThreadPrefetch.tla',
              'serves_properties': ['C04', 'C05', 'C06', 'C07'],
              'kind_free_text': 'TLA+ specs SingleThreadPrefetch/PoolMap/PrefetchAbs + trace specs STPTrace/LPMTrace/DSTrace; harness/detsched.py (controlled scheduler over the real threads), conc.py, realpool.py, check_conc.py'},
